@@ -72,8 +72,9 @@ def materialize(tree, root):
 
 
 class Tracer:
-    def __init__(self, root):
+    def __init__(self, root, die_at=None):
         self.root = os.path.realpath(str(root))
+        self.die_at = die_at       # really kill the process (no cleanup, nothing flushed) when this many trees were noted
         self.snaps = []            # (label, tree)
         self.allowed = []          # per snapshot transition: the paths the mutation may touch
         self.opened = set()
@@ -89,6 +90,8 @@ class Tracer:
         return None
 
     def note(self, label, paths):
+        if self.die_at is not None and len(self.snaps) == self.die_at:
+            os._exit(17)
         self.snaps.append((label, snapshot(self.root)))
         self.allowed.append(set(paths) | set(self.opened))
 
@@ -249,11 +252,11 @@ class Observer:
         return False
 
 
-def run_process(cfg, root, calls, trace=True):
+def run_process(cfg, root, calls, trace=True, die_at=None):
     """a fresh pipeline on `root` answering `calls`; returns the observations"""
     crashfns.CALLS.clear()
     results = []
-    tr = Tracer(root)
+    tr = Tracer(root, die_at)
     with Observer() as obs:
         if trace:
             tr.__enter__()
@@ -465,8 +468,10 @@ def explore(cfg, seed, tier, out, workdir):
     calls = cfg['calls']
     # the writer
     w = run_process(cfg, work, calls)
-    rec.emit('writer', base, w, {'role': 'writer', 'faults': [], 'point': None})
     n_points = len(w['snaps'])
+    kill_points = list(range(n_points - 1)) if tier == 'thorough' else rng.sample(range(n_points - 1), min(4, n_points - 1))
+    kills = validate_kills(cfg, work, base, w['snaps'], seed, kill_points)
+    rec.emit('writer', base, w, {'role': 'writer', 'faults': [], 'point': None, 'kill_check': {'points': len(kill_points), 'bad': kills}})
     per_point = {'quick': 3, 'thorough': 12}[tier]
     nested = [] if tier == 'thorough' else None
     done = 0
@@ -491,6 +496,27 @@ def explore(cfg, seed, tier, out, workdir):
             for j, (label, tree) in enumerate(o1['snaps']):
                 later_runs(rec, cfg, work, tree, calls, f'nested{j}', {'faults': [], 'point': [j, label], 'nested': True})
     return rec.n, n_points
+
+
+def validate_kills(cfg, work, base, snaps, seed, points):
+    """the tree noted before mutation k is what a process really killed at that point leaves on disk"""
+    bad = []
+    for k in points:
+        materialize(base, work)
+        pid = os.fork()
+        if pid == 0:
+            try:
+                random.seed(f'tmpnames/{seed}')
+                run_process(cfg, work, cfg['calls'], die_at=k)
+            finally:
+                os._exit(3)
+        _, status = os.waitpid(pid, 0)
+        code = os.waitstatus_to_exitcode(status)
+        left = snapshot(work)
+        if code != 17 or left != snaps[k][1]:
+            diff = sorted(p for p in set(left) | set(snaps[k][1]) if left.get(p, 0) != snaps[k][1].get(p, 0))
+            bad.append({'point': k, 'exit': code, 'differs': diff[:5]})
+    return bad
 
 
 CONFIGS = [
